@@ -745,4 +745,314 @@ Lemma inv_reach_by l s : reach_by l s -> Inv s.
 Proof. induction 1; [apply inv_init|eapply inv_step; eassumption]. Qed.
 Lemma inv_reach s : reach s -> Inv s.
 Proof. intros [l H]. eapply inv_reach_by, H. Qed.
+
+(* ================= C17 ================= *)
+Definition serving (g : stage) : bool := match g with Own | Authing | Pooled => true | _ => false end.
+(* does close() reach the connections being served?  threaded / one-shot: always; pool, forking: by the generated facts *)
+Definition close_reaches : bool :=
+  match kind K with Threaded | OneShot => true | Pool => pool_close_drops (fx K) | Forking => fork_parent_keeps (fx K) end.
+
+Lemma pooled_is_pool s c : Inv s -> stg (conns s c) = Pooled -> kind K = Pool.
+Proof.
+  intros (I1 & [H _] & _) Hs. specialize (H c). unfold conn_ok in H.
+  destruct (kind K) eqn:Ek; try reflexivity; exfalso;
+  (assert (Nk : kind K <> Pool) by congruence); destruct (i_nonpool _ I1 Nk) as (e1 & _);
+  assert (M : mem c (fdmap s) = true) by tauto; rewrite e1 in M; discriminate.
+Qed.
+
+Lemma closed_conn_shut s x : shut (conns s x) = true -> shut (closed_conn s x) = true.
+Proof.
+  intros Hs. unfold closed_conn.
+  destruct (mem x (backlog s)), (mem x (clients s)), (pool_fix && mem x (fdmap s)); cbn; rewrite ?close_conn_shut; cbn; rewrite ?Hs; reflexivity.
+Qed.
+
+Lemma closed_conn_shut_clients s x : mem x (clients s) = true -> shut (closed_conn s x) = true.
+Proof.
+  intros Hm. unfold closed_conn. rewrite Hm.
+  destruct (mem x (backlog s)), (pool_fix && mem x (fdmap s)); cbn; rewrite ?close_conn_shut; reflexivity.
+Qed.
+Lemma closed_conn_shut_pooled s x :
+  pool_fix = true -> mem x (fdmap s) = true -> authd (conns s x) = true -> (cclosed (conns s x) = true -> shut (conns s x) = true) ->
+  shut (closed_conn s x) = true.
+Proof.
+  intros Hp Hm Ha Hc. unfold closed_conn. rewrite Hp, Hm. cbn [andb].
+  destruct (mem x (backlog s)), (mem x (clients s)); cbn; rewrite close_conn_shut; cbn; rewrite ?Ha; cbn;
+  destruct (cclosed (conns s x)) eqn:Ec; cbn; rewrite ?orb_true_r; auto; rewrite Hc; auto.
+Qed.
+
+Lemma tracked_of_reaches : close_reaches = true -> kind K <> Pool -> tracked = true.
+Proof. unfold close_reaches, tracked. destruct (kind K); congruence. Qed.
+
+Lemma serving_shut_when_closed s c : Inv s -> closed s = true -> close_reaches = true ->
+  serving (stg (conns s c)) = true -> shut (conns s c) = true.
+Proof.
+  intros (I1 & [H2 N2] & I3) Hc Hr Hs. destruct (i_closed_clients _ I1 Hc) as [c1 _].
+  specialize (H2 c). unfold conn_ok in H2. rewrite c1 in H2. cbn [mem existsb] in H2.
+  destruct (stg (conns s c)) eqn:Sg; try discriminate.
+  - destruct H2 as (_ & _ & Ho & _). destruct (Ho eq_refl) as [Nk T]. destruct (T (tracked_of_reaches Hr Nk)); [discriminate|assumption].
+  - destruct H2 as (_ & _ & _ & Ha & _). destruct (Ha eq_refl) as (_ & _ & [F|F]); [discriminate|assumption].
+  - destruct H2 as (_ & _ & _ & _ & Hp & _). destruct (Hp eq_refl) as [M _].
+    assert (Kp : kind K = Pool).
+    { destruct (kind K) eqn:Ek; try reflexivity; exfalso; (assert (Nk : kind K <> Pool) by congruence);
+      destruct (i_nonpool _ I1 Nk) as (e1 & _); rewrite e1 in M; discriminate. }
+    assert (Pf : pool_fix = true) by (unfold pool_fix; unfold close_reaches in Hr; rewrite Kp in *; exact Hr).
+    destruct (i_closed_pool _ I1 Hc Pf) as [e1 _]. rewrite e1 in M. discriminate.
+Qed.
+
+Lemma serving_shut_by_close s c : Inv s -> close_reaches = true ->
+  serving (stg (conns s c)) = true -> shut (closed_conn s c) = true.
+Proof.
+  intros (I1 & [H2 N2] & I3) Hr Hs.
+  specialize (H2 c). unfold conn_ok in H2.
+  destruct (stg (conns s c)) eqn:Sg; try discriminate.
+  - destruct H2 as (_ & _ & Ho & _). destruct (Ho eq_refl) as [Nk T].
+    destruct (T (tracked_of_reaches Hr Nk)); [now apply closed_conn_shut_clients|now apply closed_conn_shut].
+  - destruct H2 as (_ & _ & _ & Ha & _). destruct (Ha eq_refl) as (_ & _ & [F|F]); [now apply closed_conn_shut_clients|now apply closed_conn_shut].
+  - destruct H2 as (_ & Hcc & _ & _ & Hp & _). destruct (Hp eq_refl) as [M A].
+    assert (Kp : kind K = Pool).
+    { destruct (kind K) eqn:Ek; try reflexivity; exfalso; (assert (Nk : kind K <> Pool) by congruence);
+      destruct (i_nonpool _ I1 Nk) as (e1 & _); rewrite e1 in M; discriminate. }
+    assert (Pf : pool_fix = true) by (unfold pool_fix; unfold close_reaches in Hr; rewrite Kp in *; exact Hr).
+    apply closed_conn_shut_pooled; auto. intros E. now destruct (Hcc E).
+Qed.
+
+Theorem close_ends_clients s : reach s -> close_reaches = true ->
+  let s' := server_close K s in
+  closed s' = true /\ active s' = false /\ lopen s' = false /\ clients s' = [] /\ backlog s' = []
+  /\ forall c, serving (stg (conns s c)) = true -> shut (conns s' c) = true.
+Proof.
+  intros R Hr s'. pose proof (inv_reach _ R) as I. pose proof I as (I1 & I2 & I3).
+  assert (I' : Inv1 s') by (apply inv1_server_close, I1).
+  assert (Hc : closed s' = true) by apply sc_closed.
+  destruct (i_closed_clients _ I' Hc) as [e1 e2].
+  assert (Ha : active s' = false) by (pose proof (i_closed _ I') as A; rewrite Hc in A; destruct (active s'); [discriminate|reflexivity]).
+  repeat split; auto.
+  - rewrite (i_lopen _ I'). exact Ha.
+  - intros c Hs. subst s'. rewrite sc_conns. destruct (closed s) eqn:Ec.
+    + now apply serving_shut_when_closed.
+    + now apply serving_shut_by_close.
+Qed.
+
+(* closing twice is the identity; close is always enabled *)
+Theorem close_idempotent s : server_close K (server_close K s) = server_close K s.
+Proof. unfold server_close at 1. now rewrite sc_closed. Qed.
+Theorem close_always_enabled s : step EClose s = Some (server_close K s).
+Proof. reflexivity. Qed.
+
+(* the disconnect hook of a connection runs at most once, ever *)
+Theorem hook_at_most_once s : reach s -> forall c, hooks (conns s c) <= 1 /\ (hooks (conns s c) = 1 <-> cclosed (conns s c) = true).
+Proof.
+  intros R c. pose proof (inv_reach _ R) as (_ & [H _] & _). specialize (H c). unfold conn_ok in H. destruct H as (Hh & _).
+  rewrite Hh. destruct (cclosed (conns s c)); split; try lia; split; intros; try reflexivity; discriminate.
+Qed.
+
+(* a worker whose client has left, or whose socket the server has shut down, is never blocked *)
+Lemma worker_unblocked s c :
+  (stg (conns s c) = Own \/ stg (conns s c) = Authing) -> (gone (conns s c) = true \/ shut (conns s c) = true) ->
+  exists s', step (EWork c) s = Some s'.
+Proof.
+  intros Hs Hg. unfold Server.step, Server.work.
+  destruct Hs as [Hs|Hs]; rewrite Hs.
+  - destruct (authd (conns s c)); cbn [negb].
+    + destruct (shut (conns s c)) eqn:Sh; [eauto|]. destruct Hg as [Hg|Hg]; [|discriminate]. rewrite Hg.
+      destruct (next_input (inb (conns s c))); try destruct (is_close q); eauto.
+    + destruct (shut (conns s c)) eqn:Sh; [eauto|]. destruct Hg as [Hg|Hg]; [|discriminate]. rewrite Hg.
+      destruct (has_auth K); [destruct (abeh (conns s c))|]; eauto.
+  - destruct Hg as [-> | ->]; rewrite ?orb_true_r; cbn; eauto.
+Qed.
+
+Lemma no_pooled_when_closed s c : Inv s -> closed s = true -> close_reaches = true -> stg (conns s c) <> Pooled.
+Proof.
+  intros (I1 & [H2 N2] & I3) Hc Hr Sg. specialize (H2 c). unfold conn_ok in H2.
+  destruct H2 as (_ & _ & _ & _ & Hp & _). destruct (Hp Sg) as [M _].
+  assert (Kp : kind K = Pool).
+  { destruct (kind K) eqn:Ek; try reflexivity; exfalso; (assert (Nk : kind K <> Pool) by congruence);
+    destruct (i_nonpool _ I1 Nk) as (e1 & _); rewrite e1 in M; discriminate. }
+  assert (Pf : pool_fix = true) by (unfold pool_fix; unfold close_reaches in Hr; rewrite Kp in *; exact Hr).
+  destruct (i_closed_pool _ I1 Hc Pf) as [e1 _]. rewrite e1 in M. discriminate.
+Qed.
+
+Definition quiescent := Server.quiescent decomp decode K.
+
+(* after close(), once the server's threads have nothing left to do, no connection is being served any more and every
+   connection that had a service instance has run its disconnect hook exactly once *)
+Theorem closed_and_quiet s : reach s -> closed s = true -> close_reaches = true -> quiescent s ->
+  forall c, serving (stg (conns s c)) = false /\ (authd (conns s c) = true -> hooks (conns s c) = 1 /\ stg (conns s c) = Finished).
+Proof.
+  intros R Hc Hr Q c. pose proof (inv_reach _ R) as I.
+  assert (Hs : serving (stg (conns s c)) = false).
+  { destruct (serving (stg (conns s c))) eqn:Sv; [exfalso|reflexivity].
+    pose proof (serving_shut_when_closed _ _ I Hc Hr Sv) as Sh.
+    destruct (stg (conns s c)) eqn:Sg; try discriminate.
+    - destruct (worker_unblocked s c) as [s' E]; [left; exact Sg|right; exact Sh|]. rewrite (Q (EWork c) eq_refl) in E. discriminate.
+    - destruct (worker_unblocked s c) as [s' E]; [right; exact Sg|right; exact Sh|]. rewrite (Q (EWork c) eq_refl) in E. discriminate.
+    - now apply (no_pooled_when_closed s c I Hc Hr). }
+  split; [exact Hs|]. intros Ha. destruct I as (_ & [H2 _] & _). specialize (H2 c). unfold conn_ok in H2.
+  destruct H2 as (Hh & _ & _ & _ & _ & _ & _ & _ & H9 & H10).
+  destruct (stg (conns s c)) eqn:Sg; try discriminate; try (rewrite H10 in Ha by tauto; discriminate).
+  rewrite Hh, (H9 eq_refl Ha). auto.
+Qed.
+(* ... and until then each of those workers can take its next step: nothing it waits for is missing *)
+Theorem closed_workers_not_blocked s : reach s -> closed s = true -> close_reaches = true ->
+  forall c, (stg (conns s c) = Own \/ stg (conns s c) = Authing) -> exists s', step (EWork c) s = Some s'.
+Proof.
+  intros R Hc Hr c Hs. apply worker_unblocked; [exact Hs|right].
+  apply serving_shut_when_closed; auto using inv_reach. destruct Hs as [-> | ->]; reflexivity.
+Qed.
+
+(* ---- no residue ---- *)
+Lemma held_witness x ws : cnt x (flat_map slot_cids ws) > 0 -> exists w n, nth_error ws w = Some (Some (x, n)).
+Proof.
+  induction ws as [|y ws IH]; cbn [flat_map]; intros H; [cbn in H; lia|].
+  rewrite cnt_app in H. destruct (Nat.eq_dec (cnt x (slot_cids y)) 0) as [Z|Z].
+  - destruct IH as (w & n & E); [lia|]. exists (S w), n. exact E.
+  - destruct y as [[c n]|]; [|cbn in Z; lia]. cbn [slot_cids] in Z. rewrite cnt_one in Z.
+    destruct (Nat.eqb x c) eqn:E; [|lia]. apply Nat.eqb_eq in E. subst. exists 0, n. reflexivity.
+Qed.
+
+Definition pool_has_idle_worker (s : st) : Prop := exists w, nth_error (workers s) w = Some None.
+Definition clients_guard : Prop := kind K <> Pool \/ pool_fail_discards (fx K) = true.
+
+Lemma serve_unblocked s w c n : kind K = Pool -> nth_error (workers s) w = Some (Some (c, n)) -> gone (conns s c) = true ->
+  exists s', step (EServe w) s = Some s'.
+Proof.
+  intros Kp Hw Hg. unfold Server.step, Server.serve_step. rewrite Kp, Hw.
+  destruct (negb (mem c (fdmap s))); [eauto|]. rewrite Hg.
+  destruct (next_input (inb (conns s c))); try destruct (is_close q); try destruct n as [|[|m]]; eauto.
+Qed.
+
+(* while the server runs: when its threads have nothing left to do, no table mentions a client that has left
+   (thread pool: provided a worker is idle -- see C16 for what happens otherwise) *)
+Theorem no_residue_running s : reach s -> active s = true -> quiescent s ->
+  forall c, gone (conns s c) = true ->
+    stg (conns s c) <> Own /\ stg (conns s c) <> Authing
+    /\ (clients_guard -> mem c (clients s) = false)
+    /\ (pool_has_idle_worker s \/ queue s = [] ->
+        stg (conns s c) <> Pooled /\ mem c (fdmap s) = false /\ mem c (pollset s) = false /\ mem c (queue s) = false /\ cnt c (held s) = 0).
+Proof.
+  intros R Ha Q c Hg. pose proof (inv_reach _ R) as I. pose proof I as (I1 & [H2 N2] & I3).
+  assert (Hs : forall g, stg (conns s c) = g -> g = Own \/ g = Authing -> False).
+  { intros g E Hga. destruct (worker_unblocked s c) as [s' F]; [rewrite E; exact Hga|left; exact Hg|].
+    rewrite (Q (EWork c) eq_refl) in F. discriminate. }
+  assert (H2c := H2 c). unfold conn_ok in H2c. destruct H2c as (_ & _ & _ & _ & Hp & Hfm & Hcl & _).
+  split; [intros E; apply (Hs Own); auto|]. split; [intros E; apply (Hs Authing); auto|]. split.
+  - intros G. destruct (mem c (clients s)) eqn:M; [exfalso|reflexivity].
+    destruct (Hcl eq_refl) as [E|[E|(Kp & _ & D)]]; [apply (Hs Own); auto|apply (Hs Authing); auto|].
+    destruct G; congruence.
+  - intros G. specialize (I3 Ha c).
+    assert (Mf : mem c (fdmap s) = false).
+    { destruct (mem c (fdmap s)) eqn:M; [exfalso|reflexivity].
+      assert (Kp : kind K = Pool).
+      { destruct (kind K) eqn:Ek; try reflexivity; exfalso; (assert (Nk : kind K <> Pool) by congruence);
+        destruct (i_nonpool _ I1 Nk) as (e1 & _); rewrite e1 in M; discriminate. }
+      destruct (Nat.eq_dec (cnt c (pollset s)) 0) as [Zp|Zp]; [destruct (Nat.eq_dec (cnt c (queue s)) 0) as [Zq|Zq]|].
+      - (* in a worker's hands *)
+        destruct (held_witness c (workers s)) as (w & n & Hw); [unfold held in I3; lia|].
+        destruct (serve_unblocked s w c n Kp Hw Hg) as [s' F]. rewrite (Q (EServe w) eq_refl) in F. discriminate.
+      - (* in the queue: an idle worker takes the head *)
+        destruct G as [[w Hw]|G]; [|rewrite G in Zq; cbn in Zq; lia].
+        destruct (queue s) as [|c' rest] eqn:Eq; [cbn in Zq; lia|].
+        assert (F : step (ETake w) s = Some (with_pool s (fdmap s) (pollset s) rest (set_nth w (Some (c', batch K)) (workers s)))).
+        { unfold Server.step, Server.take_step. rewrite Kp, Hw, Eq, Ha. reflexivity. }
+        rewrite (Q (ETake w) eq_refl) in F. discriminate.
+      - (* in the poll set: end-of-stream makes it readable *)
+        assert (Mp : mem c (pollset s) = true) by (apply cnt_pos_mem; lia).
+        assert (F : exists s', step (EPoll c false) s = Some s').
+        { unfold Server.step, Server.poll_step. rewrite Kp, Ha, Mp, Hg. cbn. rewrite orb_true_r. cbn. eauto. }
+        destruct F as [s' F]. rewrite (Q (EPoll c false) eq_refl) in F. discriminate. }
+    rewrite Mf in I3. split; [intros E; destruct (Hp E); congruence|]. split; [exact Mf|].
+    repeat split; try (apply cnt_zero_mem; lia). lia.
+Qed.
+
+(* after close(): nothing is left in the tables close() is responsible for *)
+Theorem no_residue_closed s : reach s -> closed s = true ->
+  clients s = [] /\ backlog s = [] /\ (pool_fix = true -> fdmap s = [] /\ pollset s = []) /\ active s = false /\ lopen s = false.
+Proof.
+  intros R Hc. pose proof (inv_reach _ R) as (I1 & _ & _). destruct (i_closed_clients _ I1 Hc) as [e1 e2].
+  assert (Ha : active s = false) by (pose proof (i_closed _ I1) as A; rewrite Hc in A; destruct (active s); [discriminate|reflexivity]).
+  pose proof (i_lopen _ I1) as Hl. rewrite Ha in Hl.
+  split; [exact e1|]. split; [exact e2|]. split; [|split; assumption].
+  intros Pf. exact (i_closed_pool _ I1 Hc Pf).
+Qed.
+
+(* ---- the one-shot server ---- *)
+Definition OneInv (s : st) : Prop :=
+  (accepted s = [] /\ busy s = None)
+  \/ exists c, accepted s = [c] /\ (busy s = Some c \/ closed s = true) /\ (stg (conns s c) = Finished -> closed s = true).
+
+Lemma one_frame s s' :
+  accepted s' = accepted s -> busy s' = busy s -> (closed s = true -> closed s' = true) ->
+  (forall c, stg (conns s' c) = Finished -> stg (conns s c) = Finished \/ closed s' = true) -> OneInv s -> OneInv s'.
+Proof.
+  intros e1 e2 Hc Hf [[A B]|(c & A & B & F)]; [left; rewrite e1, e2; auto|right].
+  exists c. rewrite e1, e2. split; [exact A|]. split; [tauto|]. intros E. destruct (Hf c E); auto.
+Qed.
+Lemma one_closed s' : closed s' = true -> (accepted s' = [] /\ busy s' = None \/ exists c, accepted s' = [c]) -> OneInv s'.
+Proof. intros Hc [H|[c H]]; [left; exact H|right; exists c; auto]. Qed.
+
+Lemma one_finish t c : kind K = OneShot -> (accepted t = [] /\ True \/ exists c', accepted t = [c']) -> OneInv (finish_own K c t).
+Proof.
+  intros Ko Sh. rewrite finish_own_eq, Ko. apply one_closed; [apply sc_closed|].
+  rewrite sc_accepted, sc_busy. simp_state. destruct Sh as [[A _]|[c' A]]; [left; auto|right; eauto].
+Qed.
+
+Lemma one_step s e s' : kind K = OneShot -> Inv1 s -> Inv2 s -> OneInv s -> step e s = Some s' -> OneInv s'.
+Proof.
+  intros Ko I1 I2 O H.
+  assert (Shape : accepted s = [] /\ True \/ exists c', accepted s = [c']).
+  { destruct O as [[A B]|(c & A & _)]; [left; auto|right; eauto]. }
+  step_cases H; try congruence.
+  all: try (eapply one_frame; [..|exact O]; simp_state; rewrite ?upd_same; try reflexivity; try tauto;
+            intros x; simp_state; conn_at x c; cbn; rewrite ?serve_on_same, ?served_conn_stg, ?serve_on_other by assumption;
+            try discriminate; auto; fail).
+  all: try (apply one_finish; [exact Ko|simp_state; exact Shape]).
+  - (* accept: only from the state in which nothing was accepted yet *)
+    apply andb_prop in Heqb. destruct Heqb as [Hb Hn]. apply andb_prop in Hb. destruct Hb as [Ha Hl].
+    assert (Bn : busy s = None) by (destruct (busy s); [discriminate|reflexivity]).
+    assert (Hc : closed s = false) by (rewrite (i_closed _ I1), Ha; reflexivity).
+    destruct O as [[A B]|(c0 & A & [B|B] & F)]; try congruence.
+    right. exists c. unfold accept. rewrite Ko. simp_state. rewrite A, upd_same. cbn. split; [reflexivity|]. split; [now left|discriminate].
+  - (* no inline authenticator outside the pool *)
+    exfalso. destruct I2 as [H2 _]. specialize (H2 c). unfold conn_ok in H2.
+    match goal with E : stg (conns s c) = Authing |- _ => assert (kind K = Pool) by tauto end. congruence.
+Qed.
+
+Theorem oneshot_serves_one s : kind K = OneShot -> reach s ->
+  List.length (accepted s) <= 1
+  /\ (accepted s <> [] -> step EAccept s = None)
+  /\ (forall c, In c (accepted s) -> stg (conns s c) = Finished -> closed s = true /\ active s = false /\ lopen s = false).
+Proof.
+  intros Ko [l R].
+  assert (O : OneInv s /\ Inv s).
+  { induction R.
+    - split; [left; split; reflexivity|apply inv_init].
+    - destruct IHR as [O I]. split; [|eapply inv_step; eassumption]. destruct I as (I1 & I2 & _). eapply one_step; eassumption. }
+  destruct O as [O (I1 & _ & _)].
+  assert (Cl : closed s = true -> active s = false /\ lopen s = false).
+  { intros Hc. pose proof (i_closed _ I1) as A. rewrite Hc in A. pose proof (i_lopen _ I1) as B.
+    destruct (active s); [discriminate|auto]. }
+  destruct O as [[A B]|(c & A & B & F)].
+  - rewrite A. cbn. split; [lia|]. split; [congruence|intros c []].
+  - rewrite A. cbn. split; [lia|]. split.
+    + intros _. unfold Server.step. destruct (backlog s); [reflexivity|].
+      destruct B as [B|B]; [rewrite B; cbn; now rewrite andb_false_r|].
+      destruct (Cl B) as [Ha _]. now rewrite Ha.
+    + intros c' [<-|[]] E. specialize (F E). destruct (Cl F). auto.
+Qed.
+
+(* ---- histories as lists: every event must be enabled ---- *)
+Fixpoint exec (l : list event) (s : st) : option st :=
+  match l with [] => Some s | e :: r => match step e s with Some s' => exec r s' | None => None end end.
+Lemma exec_app l1 l2 s : exec (l1 ++ l2) s = match exec l1 s with Some s' => exec l2 s' | None => None end.
+Proof. revert s. induction l1 as [|e l1 IH]; intros s; cbn; [reflexivity|]. destruct (step e s); [apply IH|reflexivity]. Qed.
+Lemma exec_reach_from l : forall l0 s0 s, reach_by l0 s0 -> exec l s0 = Some s -> reach_by (l0 ++ l) s.
+Proof.
+  induction l as [|e l IH]; intros l0 s0 s R H; cbn in H.
+  - inversion H; subst. now rewrite app_nil_r.
+  - destruct (step e s0) as [s1|] eqn:E; [|discriminate].
+    replace (l0 ++ e :: l) with ((l0 ++ [e]) ++ l) by (rewrite <- app_assoc; reflexivity).
+    eapply IH; [|exact H]. econstructor; eassumption.
+Qed.
+Lemma exec_reach l s : exec l (init K) = Some s -> reach s.
+Proof. intros H. exists ([] ++ l). eapply exec_reach_from; [constructor|exact H]. Qed.
 End P.
